@@ -1108,3 +1108,5 @@ B('C14', 'introduction closes every line of the new block that stands earlier in
   "        for item in reversed(list(cur_item.subproof.items)):\n            new_id = state.find_goal(state.get_proof_item(item.id).th, item.id)\n            if new_id is not None:\n                state.replace_id(item.id, new_id)", 'C14.S10', 'introduction.apply')
 N('C13', 'apply_tactic walks over a reversed copy', 'server/method.py',
   "        for item in reversed(new_prf.items):\n            if item.rule == 'sorry':", "        for item in reversed(list(new_prf.items)):\n            if item.rule != 'sorry':\n                continue\n            if True:")
+B('C16', 'input rows without variables filed like any other row', 'prover/omega.py',
+  "        if df.factoid.is_false_factoid():\n            return \"UNSAT\", Contr(df.deriv)\n        elif df.factoid.is_true_factoid():\n            continue\n        insert_db(db, df)", "        insert_db(db, df)", 'C16.O10', 'solve_matrix')
